@@ -2,6 +2,7 @@
 
 R20.1  string-shape abstract interpretation of every NameSanitizer name function: for *every* input string the result is
        non-empty, starts with an identifier-start character, contains only identifier characters, and is not a keyword
+R20.5  parameter names stored for the generators are fixed points of the sanitiser the generators re-apply (no suffix glued on after sanitising)
 R20.4  parameters of one operation keep distinct identifiers and none is dropped or merged (override keys, name-space consistency)  [= R4.4]
 R20.3  validated-return functions (enum member names): the return is dominated by the function's own validity test
        (`raise` unless fullmatch [A-Z_][A-Z0-9_]*) and preceded by the keyword suffix
@@ -78,6 +79,7 @@ def run(repo: Repo, rep: Report, tier: str) -> None:
     from rules._reuse import reuse as _reuse20
 
     _reuse20(repo, rep, "c04", {"R4.4": "R20.4"})
+    rule_stored_names_are_fixed_points(repo, rep, "R20.5")
     # ---------------------------------------------------------------- R20.3 validated returns
     eg = repo.module("visit.model.enum_generator").classes.get("EnumGenerator")
     if eg is None:
@@ -389,3 +391,56 @@ def _identifier_regex(pat: str, full: bool) -> bool:
             return False
         first = False
     return not first
+
+
+# ------------------------------------------------------------------------------------------------ R20.5 stored names are sanitiser fixed points
+def rule_stored_names_are_fixed_points(repo: Repo, rep: Report, rule: str = "R20.5") -> None:
+    """The generators under visit/endpoint apply `NameSanitizer.sanitize_method_name` *again* to the `name` of a parameter record.  That
+    is harmless only if the stored name is a fixed point of the sanitiser: every value process_parameters stores under "name" must be the
+    direct result of a NameSanitizer call (or an identifier literal).  A de-collision suffix glued on afterwards (`f"{base}_{n}"`) is not:
+    `id_` + `_2` is re-sanitised to `id_2` and can meet a real `id_2`."""
+    consumers = []
+    for m in repo.modules.values():
+        if ".visit.endpoint." not in "." + m.name + ".":
+            continue
+        for fn in m.functions.values():
+            for c in calls_in(fn.node):
+                if (dotted(c.func) or "").endswith("sanitize_method_name") and c.args and isinstance(c.args[0], ast.Subscript) and const_str(c.args[0].slice) == "name":
+                    consumers.append(f"{m.relpath}:{fn.qualname}")
+    rep.count(f"{rule}:re_sanitising_consumers", sorted(set(consumers)))
+    pp = repo.func("visit.endpoint.processors.parameter_processor:EndpointParameterProcessor.process_parameters")
+    if not consumers:
+        rep.ok(rule, f"{pp.module.relpath}:process_parameters", "no generator sanitises a stored parameter name again: nothing to require", pp.loc())
+        return
+    from sa.match import Locals as _L
+
+    L = _L(pp.node)
+    n = 0
+
+    def fixed_point(e: ast.AST, seen: Set[str]) -> bool:
+        if isinstance(e, ast.Constant) and isinstance(e.value, str):
+            return e.value.isidentifier()
+        if isinstance(e, ast.Call):
+            d = dotted(e.func) or ""
+            return ".sanitize_" in d or d.startswith("sanitize_")
+        if isinstance(e, ast.Name):
+            if e.id in seen:
+                return True
+            ds = [d for d in L.defs.get(e.id, []) if d[0] != "param"]
+            return bool(ds) and all(k == "assign" and v is not None and fixed_point(v, seen | {e.id}) for k, v, _ in ds)
+        return False
+
+    for d in own_nodes(pp.node):
+        if not isinstance(d, ast.Dict):
+            continue
+        for k, v in zip(d.keys, d.values):
+            if k is not None and const_str(k) == "name":
+                n += 1
+                sub = f"{pp.module.relpath}:process_parameters record name `{norm(v)[:40]}`"
+                if fixed_point(v, set()):
+                    rep.ok(rule, sub, f"every definition is a NameSanitizer result / identifier literal: sanitising it again ({len(set(consumers))} consumer(s)) changes nothing", pp.loc(v))
+                else:
+                    rep.violation(rule, sub, f"{pp.fq}|stored-name-not-fixed-point|{norm(v)[:30]}",
+                                  f"`{norm(v)[:40]}` can hold a name that was assembled after sanitising (de-collision suffix), but {sorted(set(consumers))[0]} sanitises it again: "
+                                  "`id_`+`_2` becomes `id_2` there and duplicates a real `id_2` (SyntaxError: duplicate argument in the generated signature)", pp.loc(v))
+    rep.require(n >= 1, f"{rule}: no parameter record with a \"name\" entry found in process_parameters (anchor)")
